@@ -219,6 +219,45 @@ def check(run):
                                   "cfg": cfg, "plan": plan, "adocs": adocs})
             finally:
                 w.close()
+    # BufferedWriter: a document that arrives while a commit is under way (after the buffer was handed over,
+    # before the commit returns - what a second thread or the commit timer can do) is in the index after close()
+    for si in range(1 if quick else 3):
+        keys = ["u%d" % i for i in range(5)]
+        adocs = dict((k, cworld.rand_adoc(rng, k)) for k in keys)
+        for d in adocs.values():
+            d["c"], d["ovr"] = {}, []          # (column values of buffered documents: recorded finding, not the subject here)
+            d["s"] = dict((f, v) for f, v in d["s"].items() if f == "blob")
+        plan = [("commit", keys, {"merge": False})]
+        cfg = {"storage": "file", "compound": True, "frontend": "buffered", "scenario": "add_document during commit"}
+        w = cworld.CWorld(dict(cfg, frontend="plain"), variant=si)
+        try:
+            try:
+                bw = writing.BufferedWriter(w.ix, period=None, limit=100)
+                for k in keys[:3]:
+                    bw.add_document(**cworld.concrete_kwargs(adocs[k]))
+                inner = bw.writer
+                orig_commit = inner.commit
+                late = list(keys[3:])
+
+                def commit_with_late_arrival(*a, **kw):
+                    while late:
+                        bw.add_document(**cworld.concrete_kwargs(adocs[late.pop(0)]))
+                    return orig_commit(*a, **kw)
+                inner.commit = commit_with_late_arrival
+                bw.commit()
+                bw.close()
+                with w.reader() as rd:
+                    idx = cworld.abstract_index(rd, adocs)
+                    obs = cworld.dump(rd, idx, w.schema, rng=rng, maxterms=5, plan=plan)
+                    run.count(len(obs))
+                cases.append({"idx": idx, "obs": obs, "cfg": cfg, "plan": plan, "adocs": adocs, "variant": si})
+            except Exception as ex:
+                cases.append({"idx": {"docs": []}, "obs": [{"kind": "error", "path": "BufferedWriter with a late arrival",
+                                                            "err": type(ex).__name__, "msg": str(ex)[:160],
+                                                            "where": content.where(ex)}],
+                              "cfg": cfg, "plan": plan, "adocs": adocs})
+        finally:
+            w.close()
     rejects = content.judge(run, cases)
     content.report(run, "c18", cases, rejects)
     run.extra["configurations"] = len(cases)
